@@ -1,3 +1,5 @@
+//go:build verif && !no_c14
+
 package main
 
 import (
